@@ -1,7 +1,9 @@
 #!/usr/bin/env python3
 """Evaluate one seeded change against the checks.
 
-    tools/seed_eval.py <seed-dir> [--confirm] [--props C01,C03]
+    tools/seed_eval.py <seed-dir> [--confirm] [--refactor] [--props C01,C03]
+
+--refactor: the change is meant to preserve behaviour (demo passes with and without it).
 
 <seed-dir> holds patch.diff and demo.py.  With --confirm the change is first confirmed
 in a throw-away worktree (demo passes clean, patch applies, suite still 678 passed,
@@ -32,7 +34,7 @@ def sh(cmd: str, cwd: str | None = None, env: dict | None = None, timeout: int =
     return p.returncode, p.stdout + p.stderr
 
 
-def confirm(seed: Path) -> dict:
+def confirm(seed: Path, refactor: bool = False) -> dict:
     wt = tempfile.mkdtemp(prefix="seedwt-")
     os.rmdir(wt)
     out: dict = {}
@@ -60,7 +62,11 @@ def confirm(seed: Path) -> dict:
     finally:
         sh(f"git -C {REPO} worktree remove --force {wt}")
         sh(f"git -C {REPO} worktree prune")
-    out["confirmed"] = out.get("demo_clean_rc") == 0 and out.get("apply_rc") == 0 and out.get("tests_ok") and out.get("demo_patched_rc", 0) != 0
+    if refactor:
+        # a behaviour-preserving change: its demo must pass without AND with the patch
+        out["confirmed"] = out.get("demo_clean_rc") == 0 and out.get("apply_rc") == 0 and bool(out.get("tests_ok")) and out.get("demo_patched_rc", 1) == 0
+    else:
+        out["confirmed"] = out.get("demo_clean_rc") == 0 and out.get("apply_rc") == 0 and out.get("tests_ok") and out.get("demo_patched_rc", 0) != 0
     return out
 
 
@@ -104,7 +110,7 @@ def main() -> int:
     props = props or [c["property_id"] for c in manifest["checks"]]
     summary: dict = {"seed": str(seed)}
     if do_confirm:
-        summary["confirm"] = confirm(seed)
+        summary["confirm"] = confirm(seed, refactor="--refactor" in args)
         print("confirm:", json.dumps(summary["confirm"])[:600])
         (seed / "confirm.json").write_text(json.dumps(summary["confirm"], indent=1))
         if not summary["confirm"].get("confirmed"):
